@@ -62,6 +62,9 @@ func (g *Gen) forStmt(depth int) *Node {
 		iter = g.Expr(g.wrongKind(KList), depth-1)
 	}
 	name := g.freshName()
+	if g.loopVar[name] {
+		name = name + "e"
+	}
 	// the loop variable is the existing variable of that name if there is one, else a new
 	// variable of the current scope
 	if vi := g.lookup(name); vi != nil {
@@ -93,38 +96,27 @@ func (g *Gen) forStmt(depth int) *Node {
 	return Stmt(n)
 }
 
-// whileStmt: a bounded loop  `var i = (num 0); while (< $i N) { ...; set i = (+ $i 1) }`
-// rendered as two statements is not possible here (one statement per call), so the counter is
-// declared by a preceding statement of the same chunk: the caller receives a pipeline for the
-// loop and the declaration is emitted through pending.
-func (g *Gen) whileStmt(depth int) *Node {
-	// needs a numeric counter variable of the current scope that no enclosing loop uses
-	var ctr string
-	for _, n := range g.top().order {
-		if vi := g.top().vars[n]; vi != nil && vi.kind == KNum && !g.loopVar[n] {
-			ctr = n
-		}
-	}
-	if ctr == "" {
-		n := g.freshName()
-		g.declare(n, &varInfo{kind: KNum})
-		return Stmt(VarDecl([]string{n}, 0, CapCmd("num", Str(fmt.Sprint(g.R.Intn(3))))))
-	}
-	bound := g.R.Intn(4)
-	was := g.loopVar[ctr]
+// whileStmt: a bounded loop with a counter of its own that nothing else can assign:
+//
+//	var iN = (num 0); while (< $iN B) { set iN = (+ $iN 1); ... }
+//
+// The increment is the first statement of the body, so `continue` cannot skip it.
+func (g *Gen) whileStmt(depth int) []*Node {
+	g.uniq++
+	ctr := fmt.Sprintf("i%d", g.uniq)
+	decl := Stmt(VarDecl([]string{ctr}, 0, CapCmd("num", Str("0"))))
+	g.declare(ctr, &varInfo{kind: KNum})
 	g.loopVar[ctr] = true
+	bound := g.R.Intn(4)
 	g.inLoop++
 	g.push(false)
 	body := g.stmts(g.R.Intn(3), depth-1)
 	g.pop()
 	g.inLoop--
-	g.loopVar[ctr] = was
-	// the increment is the last statement of the body, unconditionally
-	body.Ps = append(body.Ps, Stmt(Set([]LV{{N: ctr}}, 0, CapCmd("+", Var(ctr), Str("1")))))
-	// the counter is first brought below the bound region: loops run at most `bound`+3 times
+	body.Ps = append([]*Node{Stmt(Set([]LV{{N: ctr}}, 0, CapCmd("+", Var(ctr), Str("1"))))}, body.Ps...)
 	n := &Node{T: "while", Cond: CapCmd("<", Var(ctr), Str(fmt.Sprint(bound))), Body: body}
 	if g.chance(30) {
 		n.Els = g.Block(1, depth-1)
 	}
-	return Stmt(n)
+	return []*Node{decl, Stmt(n)}
 }
